@@ -13,7 +13,14 @@ use crate::runner::{violation, RunCtx, RunReport, Stats, Verdict};
 use crate::urlref;
 
 pub const HOSTS: &[(&str, &str)] = &[("a.test", "10.0.0.1"), ("b.test", "10.0.0.2"), ("c.test", "10.0.0.3")];
+/// reachable like the others, never drawn by `pick(HOSTS)`: a name without a dot (an intranet host), used by derived
+/// (draw-free) Location spellings
+pub const EXTRA_HOSTS: &[(&str, &str)] = &[("intranet", "10.0.0.4")];
 pub const PORTS: &[u16] = &[80, 8080];
+
+pub fn all_hosts() -> impl Iterator<Item = &'static (&'static str, &'static str)> {
+    HOSTS.iter().chain(EXTRA_HOSTS.iter())
+}
 pub const FOLLOWED: &[u16] = &[301, 302, 303, 307, 308];
 
 #[derive(Clone, Debug, PartialEq, Eq)]
@@ -101,7 +108,13 @@ pub fn gen_graph(g: &mut G, max_len: usize) -> Graph {
                 1 => {
                     let h = g.pick(HOSTS).0;
                     let port = *g.pick(PORTS);
-                    (format!("//{}:{}{}?s={}", h, port, fresh_path(g, i + 1), i), "scheme-relative")
+                    let path = fresh_path(g, i + 1);
+                    if (i + len) % 3 == 0 {
+                        // (no draw) a network-path reference to a name without a dot, on the default port
+                        (format!("//intranet{}?s={}", path, i), "scheme-relative-single-label")
+                    } else {
+                        (format!("//{}:{}{}?s={}", h, port, path, i), "scheme-relative")
+                    }
                 }
                 // (no draw) some servers put raw UTF-8 into the field: not a URI, strictly speaking - a client
                 // either refuses it or asks for exactly those octets (percent-encoded), never for other ones
@@ -281,7 +294,7 @@ pub fn node_response_to(n: &Node, head_request: bool) -> Script {
 
 /// register the graph's listeners (every host x port) on `sim`
 pub fn install_graph(sim: &Sim, gr: &Graph, seen: &Arc<Mutex<Seen>>) {
-    for (h, ip) in HOSTS {
+    for (h, ip) in all_hosts() {
         let ipa: IpAddr = ip.parse().unwrap();
         sim.add_host(h, vec![ipa]);
         for port in PORTS {
@@ -331,7 +344,7 @@ pub fn ip_of(host: &str) -> String {
     if host.parse::<IpAddr>().is_ok() {
         return host.to_string();
     }
-    HOSTS.iter().find(|(h, _)| *h == host).map(|(_, ip)| ip.to_string()).unwrap_or_default()
+    all_hosts().find(|(h, _)| *h == host).map(|(_, ip)| ip.to_string()).unwrap_or_default()
 }
 
 /// Bounds and chains far beyond the handful of hops of the main family: a redirect bound of 50, 51, 64, 120
@@ -731,7 +744,7 @@ pub fn scenario(g: &mut G, ctx: &RunCtx) -> RunReport {
                         break;
                     }
                     Ok(r) => {
-                        let host = HOSTS.iter().find(|(_, ip)| ip.parse::<IpAddr>().unwrap() == c.addr.ip()).map(|(h, _)| *h).unwrap_or("?");
+                        let host = all_hosts().find(|(_, ip)| ip.parse::<IpAddr>().unwrap() == c.addr.ip()).map(|(h, _)| *h).unwrap_or("?");
                         let url = if c.addr.port() == 80 { format!("http://{}{}", host, r.target) } else { format!("http://{}:{}{}", host, c.addr.port(), r.target) };
                         // the Host header must name the same authority
                         let hh = r.header_str("host").unwrap_or_default();
